@@ -179,6 +179,17 @@ static void part1()
     const Vec& cva = va;
     const Vec& cvb = vb;
     const Ref ra = va[0], rb = vb[0];
+#ifdef KF_EQ_SHAPE
+    {
+        // discriminator of KF-eq-shape at element level: different fixed sizes whose memcmp runs nevertheless have equal byte length
+        bool fixed_equal = true;
+        for (usize j = 0; j < LT::N; ++j)
+        {
+            fixed_equal = fixed_equal && ma.fixed[j] == mb.fixed[j];
+        }
+        verif_assume(fixed_equal || ra.size_in_bytes() != rb.size_in_bytes());
+    }
+#endif
     const CRef ca = cva[0], cb = cvb[0];
     eq_laws(ra, rb, expected, 110);
     eq_laws(ra, cb, expected, 120);
